@@ -194,7 +194,7 @@ def _val_eps(p, ie):
 
 
 def limit0(t, eps, assume=(), depth=0):
-    if depth > 6:
+    if depth > 12:
         raise OutOfReach("limit0: rewriting does not terminate")
     if not _depends(t, eps):
         return t
@@ -214,10 +214,9 @@ def limit0(t, eps, assume=(), depth=0):
                 v -= vp * e
                 nd.append((q, e))
             dens = nd
-            if v > 0:
-                return ZERO
-            if v < 0:
-                raise OutOfReach(f"limit0: pole of order {-v} at eps = 0")
+        else:
+            v = 0
+        orig_dens = [(p, e) for _, (p, e) in r.den.items()]
 
         lim_cache = {}
 
@@ -258,8 +257,24 @@ def limit0(t, eps, assume=(), depth=0):
                     if term.args[0] not in ("li2", "spence"):
                         raise
                     out = _li2_at_minus_infinity(term)
+            elif term.op == "u":
+                # uninterpreted application: exact when its arguments do not depend on eps once
+                # simplified (e.g. xi/(4(1+eta)+xi) == z); otherwise only for the atoms that stand for
+                # functions continuous on their domain (Nielsen polylogarithms, A-special)
+                new_args, exact = [], True
+                for a in term.args[1:]:
+                    if isinstance(a, R) and _depends(a, eps):
+                        a0 = arg0(a)
+                        if rf.Normaliser(assume).identity(a, a0, 0)[0] != "proved":
+                            exact = False
+                        new_args.append(a0)
+                    else:
+                        new_args.append(a)
+                if not exact and not str(term.args[0]).startswith(("ReS[", "ImS[")):
+                    raise OutOfReach(f"limit0: uninterpreted atom depends on eps: {term!r:.80}")
+                out = R("u", (term.args[0],) + tuple(new_args))
             else:
-                raise OutOfReach(f"limit0: uninterpreted atom depends on eps: {term!r:.80}")
+                raise OutOfReach(f"limit0: atom depends on eps: {term!r:.80}")
             lim_cache[i] = out
             return out
 
@@ -328,11 +343,64 @@ def limit0(t, eps, assume=(), depth=0):
                 tot = add(tot, term)
             return tot
 
-        out = lim_poly(num)
-        for p, e in dens:
-            d0 = lim_poly(p)
+        def _is_zero(d0):
             chk = rf.Normaliser(assume).norm(d0) if not d0.is_const else None
-            if (d0.is_const and d0.value == 0) or (chk is not None and not chk.num) or _numerically_zero(d0, assume):
-                raise OutOfReach("limit0: denominator vanishes at eps = 0 (0/0 not resolved)")
+            return (d0.is_const and d0.value == 0) or (chk is not None and not chk.num) or _numerically_zero(d0, assume)
+
+        def _rationalise(pden):
+            """P + Q s (s = sqrt(u), one radical, outermost first) -> (P^2 - Q^2 u, P - Q s) as terms"""
+            sq = [i for i in N.sqrt_defs if any(i == j for m in pden for j, _ in m)]
+
+            def _rank(i):
+                rad = N.atom_terms[i].args[1]
+                return -sum(1 for j in sq if j != i and _depends(rad, N.atom_terms[j]))
+
+            for si in sorted(sq, key=_rank):
+                P, Q, ok = {}, {}, True
+                for m, c in pden.items():
+                    es = dict(m).get(si, 0)
+                    rest = tuple(x for x in m if x[0] != si)
+                    if es == 0:
+                        P[rest] = P.get(rest, 0) + c
+                    elif es == 1:
+                        Q[rest] = Q.get(rest, 0) + c
+                    else:
+                        ok = False
+                if not ok or not Q:
+                    continue
+                s_ = N.atom_terms[si]
+                Pt, Qt = N.poly_term(P), N.poly_term(Q)
+                conj = add(Pt, mul(R.const(-1), mul(Qt, s_)))
+                try:
+                    c0 = arg0(conj)
+                except OutOfReach:
+                    continue
+                if _is_zero(c0):
+                    continue
+                prod = add(mul(Pt, Pt), mul(R.const(-1), mul(mul(Qt, Qt), s_.args[1])))
+                return prod, conj
+            return None
+
+        # hidden zeros of denominator factors (a radical tending to a rational value): the factor is
+        # rationalised exactly, (P + Q s)^-1 = (P - Q s)/(P^2 - Q^2 u), and the limit is retaken
+        lims = []
+        for k, (p, e) in enumerate(dens):
+            d0 = lim_poly(p)
+            if _is_zero(d0):
+                rat = _rationalise(orig_dens[k][0])
+                if rat is None:
+                    raise OutOfReach("limit0: denominator vanishes at eps = 0 (0/0 not resolved)")
+                prod, conj = rat
+                new_t = mul(N.poly_term(r.num), power(conj, e))
+                for j, (pj, ej) in enumerate(orig_dens):
+                    new_t = mul(new_t, power(prod if j == k else N.poly_term(pj), -ej))
+                return limit0(new_t, eps, assume, depth + 1)
+            lims.append((d0, e))
+        if v > 0:
+            return ZERO
+        if v < 0:
+            raise OutOfReach(f"limit0: pole of order {-v} at eps = 0")
+        out = lim_poly(num)
+        for d0, e in lims:
             out = mul(out, power(d0, -e))
         return out
